@@ -201,6 +201,42 @@ def main(tier: str) -> int:
         cases.append(case)
         traces.append({"id": len(cases) - 1, "rows": terms.jrows_of_frames(frames), "mode": "set", "exp": [terms.jitem(terms.norm_item(x)) for x in dict.fromkeys(want)]})
         case["back"] = {"Graph.parse": _safe(parse_into_store, data, False), "parse_jelly_flat": _safe(impl.parse, "rdflib", data, "flat")}
+    # the plugin's calling conventions: bytes returned (encoding="jelly"), a path as destination, parse by path / by file extension / by MIME type / from data=
+    import os  # noqa: PLC0415
+    import tempfile  # noqa: PLC0415
+    from rdflib.graph import Dataset as _DS, Graph as _G  # noqa: PLC0415
+
+    conv = 0
+    for case in list(cases)[:: (7 if tier == "quick" else 2)]:
+        if case["key"].get("entry") != "graph_serialize" or not case["key"].get("delimited", True):
+            continue
+        dataset = case["dataset"]
+        store = build_store(case["rp"]["statements"], dataset, False) if isinstance(case["rp"].get("statements"), list) else None
+        if store is None:
+            continue
+        want_c = {rdf_norm(x) for x in impl._items_of_rdflib_store(store)}
+        key_c = dict(case["key"], entry="plugin-conventions")
+        with tempfile.TemporaryDirectory(dir=env.workdir()) as d_:
+            path = os.path.join(d_, "out.jelly")
+            results = {}
+            try:
+                b1 = store.serialize(format="jelly", encoding="jelly")
+                store.serialize(destination=path, format="jelly")
+                b2 = open(path, "rb").read()
+                for how, fn in (("bytes-returned:data=", lambda t: t.parse(data=b1, format="jelly")), ("path:format=jelly", lambda t: t.parse(path, format="jelly")),
+                                ("path:by-extension", lambda t: t.parse(path)), ("file:mime-type", lambda t: t.parse(source=open(path, "rb"), format="application/x-jelly-rdf"))):  # noqa: SIM115
+                    t_ = _DS() if dataset else _G()
+                    fn(t_)
+                    results[how] = {rdf_norm(x) for x in impl._items_of_rdflib_store(t_)}
+                if not isinstance(b1, bytes) or not b2:
+                    results["serialize"] = "no bytes"
+            except Exception as ex:  # noqa: BLE001
+                run.violation({"clause": "plugin-convention-raised", **key_c}, f"{type(ex).__name__}: {str(ex)[:120]}", case["rp"])
+                continue
+        conv += 1
+        for how, got_c in results.items():
+            if got_c != want_c:
+                run.violation({"clause": "round-trip-differs", "parse": how, **key_c}, f"{how}: {len(got_c) if not isinstance(got_c, str) else got_c} vs {len(want_c)} statements", case["rp"])
     # an empty Graph / Dataset through every rdflib entry point
     for ec in campaign.empty_sequence_cases("rdflib"):
         if ec.exc:
@@ -231,7 +267,7 @@ def main(tier: str) -> int:
             samples.append({"key": key, "statements": len(case["want"]), "bytes": len(case["data"])})
     return run.finish({
         "states": states + jst["states"], "transitions": trans + jst["transitions"], "traces_validated_against_impl": len(traces), "samples": samples,
-        "exhaustive": False, "slices": cov, "cases": len(cases), "undersized_tables_refused": refused, "state_graph_comparison_rdflib_encoder": graph,
+        "exhaustive": False, "slices": cov, "cases": len(cases), "undersized_tables_refused": refused, "plugin_conventions_round_trips": conv, "state_graph_comparison_rdflib_encoder": graph,
         "explanation": "state graph of the serializer under the rdflib term encoder (every reachable state x every call of RDF 1.1 slices, Tier-1 inductive step judged by TLC on each real edge); RDF 1.1 behaviours of PyWriter (TLC simulation; default/IRI/bnode graph names, plain/lang/typed objects incl. xsd:string and non-canonical lexical forms) "
                        "are built as rdflib Graph/Dataset and written through Graph.serialize (TripleStream / QuadStream / GraphStream, flat and grouped logical types, delimited and "
                        "non-delimited flat), flat_/grouped_stream_to_file and stream_frames; the bytes are judged by TLC as a SET against what rdflib reports as the input and parsed "
